@@ -3,7 +3,15 @@ package main
 // C11 model comparison: every session the C11 harness runs is also replayed in the executable
 // Lean model of the handle table (lean/Sftp/Model/Handles.lean) through the driver op
 //
-//	c11.run <cfg> <action>*        actions O N U:<h> C:<h> Z:<0|1>
+//	c11.run <cfg> <action>*        actions O:<r|w|b|l> N U:<h> R:<h> W:<h> D:<h> C:<h> Z:<0|1>
+//
+// with the EXTENDED configuration token `<8 bits>:<kinds>` printed by `c11.cur rs|os` (the six bits of
+// before + sweepEmptiesTable + useKindChecked, and the kinds of object that are told about a transfer
+// error).  READ / WRITE / READDIR are kind-checked uses (R: W: D:), FSTAT / FSETSTAT fit every handle (U:);
+// a live handle of the wrong kind gives the status class `wrongkind`: on the request server the
+// servesPacket refusal (the object is not called), on the os-backed server the file's own error (the
+// object IS called).  The result carries, besides statuses / objects / table, `handles=` (the handle
+// issued by every O action) and `kinds=` (the kind of every object), both compared.
 //
 // Child side (ssMRec): while ssRunC11 drives the real server, the recorder writes down the
 // actions in the order the server processed them and what the implementation showed for each
@@ -29,6 +37,7 @@ import (
 	"fmt"
 	"io/fs"
 	"os"
+	"regexp"
 	"sort"
 	"strconv"
 	"strings"
@@ -67,6 +76,7 @@ type ssMObj struct { // -1: not observable
 	Ctx     int    `json:"x"`
 	Touched int    `json:"u"`
 	Kind    string `json:"k,omitempty"`
+	Let     string `json:"l,omitempty"` // kind letter of the model: r w b l
 }
 
 type ssMTrace struct {
@@ -80,9 +90,12 @@ type ssMTrace struct {
 	PreN      int      `json:"pn"`            // table size just before the connection was ended (-1: not sampled)
 	Pre       []string `json:"pre,omitempty"` // os: the issued handle strings found in the table then
 	PreSet    bool     `json:"ps,omitempty"`  // Pre is meaningful
-	PostN     int      `json:"qn"`            // rs: table size after Serve returned (-1: not compared)
+	PostN     int      `json:"qn"`            // table size after Serve returned (-1: not sampled)
+	Post      []string `json:"q,omitempty"`   // os: the issued handle strings still in the table after Serve
+	PostSet   bool     `json:"qs,omitempty"`  // Post is meaningful
 	Dropped   int      `json:"d,omitempty"`   // requests the driver has no action for (INIT and path requests)
 	RODropped int      `json:"rd,omitempty"`  // … of these: WRITE / FSETSTAT refused by a ReadOnly() server
+	Wrong     int      `json:"wk,omitempty"`  // READ / WRITE / READDIR sent on a live handle of another kind
 	Skip      string   `json:"s,omitempty"`   // the session cannot be compared: why
 }
 
@@ -106,6 +119,7 @@ type ssMRec struct {
 	bogus   map[string]string
 	objOf   map[string]int // handle string -> index of the latest object issued under it
 	rsID    []int          // rs: handler object id per object index (-1 unknown)
+	lets    []string       // kind letter per object index
 	files   []*ssCntFile   // os: wrapper per object index (nil: could not be wrapped)
 	touched []int
 	lastID  int
@@ -179,18 +193,39 @@ func (m *ssMRec) delta(pre ssMSnap) map[int]int {
 
 const ssEBADFText = "bad file descriptor"
 
-func ssMClass(rep wire.Pkt) string {
+// the refusal of packetWorker's `!request.servesPacket(pkt)` branch (request-server.go)
+const ssWrongKindText = "request does not fit the kind of its handle"
+
+// ssMClass is the status class of the reply to a handle-bearing request.
+//   - ebadf: FAILURE with exactly the EBADF text (the table lookup failed; a file's own EBADF reads
+//     "read <path>: bad file descriptor" and is not this);
+//   - wrongkind (READ / WRITE / READDIR only): request server — FAILURE with exactly the servesPacket text,
+//     whatever the harness thinks of the handle; os-backed server — the harness saw the handle live with a
+//     kind the request does not fit and the reply is a failure status (the file's own error);
+//   - ok: everything else (DATA, NAME, ATTRS, OK, EOF and the errors of a fitting request).
+func ssMClass(rsKind bool, q ssReq, mismatch bool, rep wire.Pkt) string {
 	if rep.Typ != wire.Status {
 		return "ok"
 	}
 	d := wire.D{B: rep.Body}
 	d.U32()
 	code := d.U32()
-	if msg := d.Str(); code == wire.Failure && msg == ssEBADFText {
+	msg := d.Str()
+	if code == wire.Failure && msg == ssEBADFText {
 		return "ebadf"
+	}
+	if q.Kind == "read" || q.Kind == "write" || q.Kind == "readdir" {
+		if rsKind && code == wire.Failure && msg == ssWrongKindText {
+			return "wrongkind"
+		}
+		if !rsKind && mismatch && code != wire.OK {
+			return "wrongkind"
+		}
 	}
 	return "ok"
 }
+
+var ssKindLetter = map[string]string{"r": "r", "w": "w", "rw": "b", "dir": "l", "reader": "r", "writer": "w", "lister": "l"}
 
 func (m *ssMRec) act(tok, impl string, grp int) {
 	m.t.Acts = append(m.t.Acts, tok)
@@ -226,7 +261,14 @@ func (m *ssMRec) record(i int, q ssReq, hk string, live bool, reps []wire.Pkt, p
 		h, isHandle := ssHandleOf(reps[0])
 		switch {
 		case isHandle:
-			m.act("O", "ok", i)
+			// the kind of the object behind the handle: request server — the object the handler returned
+			// (observed); os-backed — how the file was opened (READ / WRITE bits of the request, OPENDIR)
+			let := ssKindLetter[m.s.trk.handleKind(q)]
+			if rsKind && len(fresh) == 1 {
+				let = ssKindLetter[fresh[0].Kind]
+			}
+			m.act("O:"+let, "ok", i)
+			m.lets = append(m.lets, let)
 			m.t.Issued = append(m.t.Issued, h)
 			idx := len(m.touched)
 			m.touched = append(m.touched, 0)
@@ -262,17 +304,20 @@ func (m *ssMRec) record(i int, q ssReq, hk string, live bool, reps []wire.Pkt, p
 			m.t.RODropped++
 			return
 		}
-		if live && ssMismatch(q.Kind, hk) {
-			m.skip("request-does-not-fit-handle-kind") // the driver has one `use` action: found => called
+		mismatch := live && ssMismatch(q.Kind, hk)
+		tok := map[string]string{"close": "C:", "read": "R:", "write": "W:", "readdir": "D:", "fstat": "U:", "fsetstat": "U:"}[q.Kind]
+		if !rsKind && q.Kind == "write" && q.WrLen == 0 {
+			// os-backed: WriteAt of no bytes never reaches the descriptor (it succeeds on any open file): a use
+			// that fits every handle
+			tok, mismatch = "U:", false
 		}
-		tok := "U:"
-		if q.Kind == "close" {
-			tok = "C:"
+		if mismatch {
+			m.t.Wrong++
 		}
 		tok += m.hnum(q.Handle)
 		nOk := 0
 		for _, rep := range reps {
-			c := ssMClass(rep)
+			c := ssMClass(rsKind, q, mismatch, rep)
 			if c == "ok" {
 				nOk++
 			}
@@ -353,15 +398,15 @@ func (m *ssMRec) finish(end ssEnd, extra []wire.Pkt) *ssMTrace {
 		for idx, id := range m.rsID {
 			o, ok := st[id]
 			if !ok {
-				m.t.Objs = append(m.t.Objs, ssMObj{-1, -1, -1, -1, "?"})
+				m.t.Objs = append(m.t.Objs, ssMObj{Closed: -1, TE: -1, Ctx: -1, Touched: -1, Kind: "?"})
 				continue
 			}
 			mo := ssMObj{Closed: o.Closed, TE: o.TE, Ctx: 0, Touched: m.touched[idx], Kind: o.Kind}
 			if o.CtxDone {
 				mo.Ctx = 1
 			}
-			if o.Kind == "lister" {
-				mo.TE = -1 // Request.transferError only tells readers and writers; a ListerAt has no TransferError
+			if idx < len(m.lets) {
+				mo.Let = m.lets[idx]
 			}
 			// an object without the optional method cannot show what the model counts (ssCfg.Without):
 			// not observable, not compared; the rest of the session is
@@ -391,11 +436,25 @@ func (m *ssMRec) finish(end ssEnd, extra []wire.Pkt) *ssMTrace {
 		}
 	} else {
 		for idx, f := range m.files {
+			let := ""
+			if idx < len(m.lets) {
+				let = m.lets[idx]
+			}
 			if f == nil {
-				m.t.Objs = append(m.t.Objs, ssMObj{-1, -1, -1, -1, "file"})
+				m.t.Objs = append(m.t.Objs, ssMObj{Closed: -1, TE: -1, Ctx: -1, Touched: -1, Kind: "file", Let: let})
 				continue
 			}
-			m.t.Objs = append(m.t.Objs, ssMObj{Closed: int(f.closed.Load()), TE: -1, Ctx: -1, Touched: m.touched[idx], Kind: "file"})
+			m.t.Objs = append(m.t.Objs, ssMObj{Closed: int(f.closed.Load()), TE: -1, Ctx: -1, Touched: m.touched[idx], Kind: "file", Let: let})
+		}
+		// the table after Serve: server.go's sweep closes the files and leaves the entries where they are
+		m.t.PostN = sftp.VerifOpenHandles(m.s.srv.OS)
+		m.t.PostSet = true
+		seen := map[string]bool{}
+		for _, h := range m.t.Issued {
+			if !seen[h] && sftp.VerifSwapFile(m.s.srv.OS, h, func(f sftp.VerifFile) sftp.VerifFile { return f }) {
+				m.t.Post = append(m.t.Post, h)
+			}
+			seen[h] = true
 		}
 	}
 	return &m.t
@@ -411,7 +470,7 @@ type ssMItem struct {
 
 type ssModelCmp struct {
 	c      *lib.Ctx
-	cfgTok map[string]string // server kind -> six-bit configuration
+	cfgTok map[string]string // server kind -> extended configuration token `<8 bits>:<kinds>`
 	batch  int
 
 	pend []ssMItem
@@ -431,7 +490,7 @@ func newSSModelCmp(c *lib.Ctx) *ssModelCmp {
 		return nil
 	}
 	m := &ssModelCmp{c: c, batch: 2000, ch: make(chan []ssMItem, 4), hist: map[string]int{}, compared: map[string]int{}}
-	m.cfgTok = map[string]string{"rs": gCurCfg(c, "c11rs", "111111"), "os": gCurCfg(c, "c11os", "111010")}
+	m.cfgTok = map[string]string{"rs": ssMCurCfg(c, "rs", "11111111:rwb"), "os": ssMCurCfg(c, "os", "11101000:.")}
 	for _, k := range []string{"rs", "os"} { // self-test of the comparison: replay in a configuration that is NOT the code's
 		if v := os.Getenv("VH_C11_CFG_" + strings.ToUpper(k)); v != "" {
 			m.cfgTok[k] = v
@@ -446,6 +505,26 @@ func newSSModelCmp(c *lib.Ctx) *ssModelCmp {
 		}
 	}()
 	return m
+}
+
+var ssMCfgTok = regexp.MustCompile(`^[01]{8}:(\.|[rwblp]+)$`)
+
+// ssMCurCfg asks the driver for the extended configuration token regenerated from the source
+// (`c11.cur rs|os`); pinned is the token the harness was written against (used when the driver does not answer).
+func ssMCurCfg(c *lib.Ctx, kind, pinned string) string {
+	saved := c.R.ModelCases
+	out, err := c.Model([]string{"c11.cur " + kind})
+	c.R.ModelCases = saved
+	if err != nil || len(out) != 1 || !ssMCfgTok.MatchString(out[0]) {
+		c.R.Note("driver does not serve `c11.cur %s` (%v %q): %s sessions are replayed in the pinned configuration %s", kind, err, out, kind, pinned)
+		return pinned
+	}
+	if out[0] != pinned {
+		c.R.Note("configuration regenerated from the source for c11 %s is %s (the configuration the harness was written against: %s); sessions are replayed in the regenerated one", kind, out[0], pinned)
+	} else {
+		c.R.Note("model configuration for c11 %s taken from `c11.cur %s`: %s", kind, kind, out[0])
+	}
+	return out[0]
 }
 
 // add queues one finished session (called serialised).
@@ -464,6 +543,9 @@ func (m *ssModelCmp) add(j *ssPJob, res *ssResult) {
 	if why := ssModelInexpressible(j.Cfg); why != "" {
 		m.c.R.Hist("model/skip/configuration/" + why)
 		return
+	}
+	if res.Model.Wrong > 0 {
+		m.c.R.Hist("model/compared-with/requests-on-a-live-handle-of-the-wrong-kind")
 	}
 	if res.Model.RODropped > 0 {
 		m.c.R.Hist("model/compared-without/readonly-refused-handle-requests")
@@ -485,11 +567,11 @@ func (m *ssModelCmp) add(j *ssPJob, res *ssResult) {
 // handle-table model at all ("" = they can).  Such sessions are skipped for the model comparison only —
 // every direct oracle still judges them — and counted under model/skip/configuration/<reason>.
 //
-// What the new configuration dimensions need: ReadOnly(), WithDebug, start / working directories and
+// What the configuration dimensions need: ReadOnly(), WithDebug, start / working directories and
 // the handler-interface variants lstat / posixrename / statvfs do not change the handle table; objects
 // without Close / TransferError make single fields unobservable (compared without them); without
-// OpenFileWriter a read-write open yields a write handle (READ on it "does not fit": the existing
-// per-session skip).  Only the package's own InMemHandler gives no object view at all.
+// OpenFileWriter a read-write open yields a WRITER object (O:w — READ on it is a wrong-kind use, which the
+// model expresses).  Only the package's own InMemHandler gives no object view at all.
 func ssModelInexpressible(cfg ssCfg) string {
 	if cfg.Kind == "rs" && cfg.InMem {
 		return "inmem-handler-without-object-counters"
@@ -525,7 +607,7 @@ func (m *ssModelCmp) close() {
 		per = append(per, fmt.Sprintf("%s=%d", k, m.compared[k]))
 	}
 	r.ModelCases += total
-	r.Note("model comparison (c11.run): %d sessions compared (%s) with %d distinct driver lines; per session: status class of every handle request, handle string of every OPEN/OPENDIR, per object closed/TransferError/context/touched after Serve, table before the end and (request server) after it", total, strings.Join(per, " "), m.lines)
+	r.Note("model comparison (c11.run): %d sessions compared (%s) with %d distinct driver lines; per session: status class of every handle request, handle string of every OPEN/OPENDIR (handles=), kind of every object (kinds=), per object closed/TransferError/context/touched after Serve (TransferError of listers included: expected 0), table before the end and after it on both servers", total, strings.Join(per, " "), m.lines)
 }
 
 type ssMOut struct {
@@ -533,12 +615,18 @@ type ssMOut struct {
 	status []string
 	objs   [][]string // closed terr ctx touched r|p
 	open   []string
+	ext    bool     // the two fields of the extended form are present
+	issued []string // handles=: the handle issued by every O action
+	kinds  []string // kinds=: kind letter of every object (p = placeholder)
 }
 
 func ssMParse(s string) (o ssMOut, ok bool) {
 	o.raw = s
 	f := strings.Fields(s)
-	if len(f) != 3 || !strings.HasPrefix(f[0], "status=") || !strings.HasPrefix(f[1], "objs=") || !strings.HasPrefix(f[2], "open=") {
+	if (len(f) != 3 && len(f) != 5) || !strings.HasPrefix(f[0], "status=") || !strings.HasPrefix(f[1], "objs=") || !strings.HasPrefix(f[2], "open=") {
+		return o, false
+	}
+	if len(f) == 5 && (!strings.HasPrefix(f[3], "handles=") || !strings.HasPrefix(f[4], "kinds=")) {
 		return o, false
 	}
 	list := func(x string) []string {
@@ -556,6 +644,9 @@ func ssMParse(s string) (o ssMOut, ok bool) {
 		o.objs = append(o.objs, p)
 	}
 	o.open = list(f[2][5:])
+	if len(f) == 5 {
+		o.ext, o.issued, o.kinds = true, list(f[3][8:]), list(f[4][6:])
+	}
 	return o, true
 }
 
@@ -593,7 +684,6 @@ func (m *ssModelCmp) run(items []ssMItem) {
 	}
 	type need struct {
 		full, pre int
-		opens     []int
 	}
 	needs := make([]need, len(items))
 	for k, it := range items {
@@ -601,11 +691,6 @@ func (m *ssModelCmp) run(items []ssMItem) {
 		n := need{full: line(cfg, it.t.Acts, it.t.Z), pre: -1}
 		if it.t.PreN >= 0 {
 			n.pre = line(cfg, it.t.Acts, -1)
-		}
-		for i, a := range it.t.Acts {
-			if a == "O" {
-				n.opens = append(n.opens, line(cfg, it.t.Acts[:i+1], -1))
-			}
 		}
 		needs[k] = n
 	}
@@ -619,7 +704,7 @@ func (m *ssModelCmp) run(items []ssMItem) {
 	m.lines += len(lines)
 	for k, it := range items {
 		kind := it.j.Cfg.Kind
-		why, actual := ssMDiff(it, lines, out, needs[k].full, needs[k].pre, needs[k].opens)
+		why, actual := ssMDiff(it, lines, out, needs[k].full, needs[k].pre)
 		m.compared[kind]++
 		m.hist["model/compared/"+kind+"/"+it.j.End.Mode]++
 		if why == "" {
@@ -638,7 +723,7 @@ func (m *ssModelCmp) run(items []ssMItem) {
 
 // ssMDiff compares one session; why == "" when model and implementation agree.
 // actual renders what the implementation showed in the driver's output format (`?` = not observable).
-func ssMDiff(it ssMItem, lines, out []string, full, pre int, opens []int) (why, actual string) {
+func ssMDiff(it ssMItem, lines, out []string, full, pre int) (why, actual string) {
 	t := it.t
 	rsKind := it.j.Cfg.Kind == "rs"
 	// the implementation in the driver's format
@@ -661,9 +746,16 @@ func ssMDiff(it ssMItem, lines, out []string, full, pre int, opens []int) (why, 
 	post := "?"
 	if t.PostN >= 0 {
 		post = fmt.Sprintf("(%d entries)", t.PostN)
+		if t.PostSet {
+			post = dot(t.Post)
+		}
 	}
-	actual = fmt.Sprintf("status=%s objs=%s open=%s | handles issued: %s | failed-open contexts cancelled: %v | table before the end: %d entries %v | Serve returned: %q",
-		dot(append(append([]string(nil), t.Impl...), "ok")), dot(ob), post, dot(t.Issued), t.PCtx, t.PreN, t.Pre, it.serve)
+	var lets []string
+	for _, o := range t.Objs {
+		lets = append(lets, o.Let)
+	}
+	actual = fmt.Sprintf("status=%s objs=%s open=%s handles=%s kinds=%s | failed-open contexts cancelled: %v | table before the end: %d entries %v | Serve returned: %q",
+		dot(append(append([]string(nil), t.Impl...), "ok")), dot(ob), post, dot(t.Issued), dot(lets), t.PCtx, t.PreN, t.Pre, it.serve)
 
 	if strings.HasPrefix(out[full], "blocked@") || out[full] == "bad-op" {
 		return "the model does not run this session (" + out[full] + ") although the implementation did", actual
@@ -671,6 +763,9 @@ func ssMDiff(it ssMItem, lines, out []string, full, pre int, opens []int) (why, 
 	mo, ok := ssMParse(out[full])
 	if !ok {
 		return "unreadable driver output", actual
+	}
+	if !mo.ext {
+		return "the driver answered in the legacy three-field form (the configuration token must be of the extended form <8 bits>:<kinds>)", actual
 	}
 	// 0. the error the sweep saw (os-backed server: Serve returns it)
 	if !rsKind && (it.serve == "") != (t.Z == 0) {
@@ -693,27 +788,40 @@ func ssMDiff(it ssMItem, lines, out []string, full, pre int, opens []int) (why, 
 		}
 		a = b
 	}
-	// 2. handle strings issued
-	for k, li := range opens {
-		po, ok := ssMParse(out[li])
-		if !ok || len(po.open) == 0 {
-			return fmt.Sprintf("the model has no table entry right after OPEN number %d (%s)", k+1, out[li]), actual
-		}
-		if k < len(t.Issued) && po.open[len(po.open)-1] != t.Issued[k] {
-			return fmt.Sprintf("handle issued by OPEN number %d: model %s, implementation %q", k+1, po.open[len(po.open)-1], t.Issued[k]), actual
+	// 2. handle strings issued (handles=: one per O action, elementwise)
+	if len(mo.issued) != len(t.Issued) {
+		return fmt.Sprintf("number of handles issued: model %d %v, implementation %d %v", len(mo.issued), mo.issued, len(t.Issued), t.Issued), actual
+	}
+	for k := range t.Issued {
+		if mo.issued[k] != t.Issued[k] {
+			return fmt.Sprintf("handle issued by OPEN number %d: model %s, implementation %q", k+1, mo.issued[k], t.Issued[k]), actual
 		}
 	}
 	// 3. objects
 	var real, plac [][]string
-	for _, o := range mo.objs {
+	var realKinds []string
+	if len(mo.kinds) != len(mo.objs) {
+		return fmt.Sprintf("the model lists %d kinds for %d objects", len(mo.kinds), len(mo.objs)), actual
+	}
+	for x, o := range mo.objs {
 		if o[4] == "r" {
 			real = append(real, o)
+			realKinds = append(realKinds, mo.kinds[x])
 		} else {
 			plac = append(plac, o)
+			if mo.kinds[x] != "p" {
+				return fmt.Sprintf("object %d of the model is a placeholder of kind %q", x+1, mo.kinds[x]), actual
+			}
 		}
 	}
 	if len(real) != len(t.Objs) {
 		return fmt.Sprintf("number of objects: model %d, implementation %d", len(real), len(t.Objs)), actual
+	}
+	// 3a. kinds=: the kind of every object (request server: the object the handler returned; os-backed: how the file was opened)
+	for k, o := range t.Objs {
+		if o.Let != "" && realKinds[k] != o.Let {
+			return fmt.Sprintf("kind of object %d (handle %q): model %s, implementation %s (%s)", k+1, t.Issued[k], realKinds[k], o.Let, o.Kind), actual
+		}
 	}
 	names := []string{"closed", "TransferError", "context cancelled", "touched"}
 	for k, o := range t.Objs {
@@ -739,10 +847,16 @@ func ssMDiff(it ssMItem, lines, out []string, full, pre int, opens []int) (why, 
 			}
 		}
 	}
-	// 4. the table after Serve (request server: the sweep deletes; the os-backed server's sweep closes
-	//    the files but leaves the map as it is, which nobody can observe any more)
-	if rsKind && t.PostN >= 0 && len(mo.open) != t.PostN {
-		return fmt.Sprintf("table after Serve: model %v, implementation %d entries", mo.open, t.PostN), actual
+	// 4. the table after Serve (request server: the sweep deletes the entries; the os-backed server's sweep
+	//    closes the files and leaves the entries in the map)
+	if t.PostN >= 0 && len(mo.open) != t.PostN {
+		return fmt.Sprintf("table after Serve: model %v, implementation %d entries %v", mo.open, t.PostN, t.Post), actual
+	}
+	if t.PostSet {
+		a, b := ssSortedCopy(mo.open), ssSortedCopy(t.Post)
+		if strings.Join(a, ",") != strings.Join(b, ",") {
+			return fmt.Sprintf("table after Serve: model %v, implementation %v", mo.open, t.Post), actual
+		}
 	}
 	// 5. the table just before the end
 	if pre >= 0 {
